@@ -638,5 +638,6 @@ func extractC09() *lean {
 		})
 	}
 	l.def("keyLookup", "String", strconv.Quote(keyLookup), keyLookup)
+	c09EntryFacts(l, amb)
 	return l
 }
